@@ -96,17 +96,52 @@ class Hang(Exception):
     """The code under test did not return within the watchdog interval."""
 
 
+_GC = {'t': 0.0, 't0': 0.0}
+
+
+def _gc_cb(phase, info):
+    import time
+    if phase == 'start':
+        _GC['t0'] = time.process_time()
+    else:
+        _GC['t'] += time.process_time() - _GC['t0']
+
+
+def _install_gc_clock():
+    import gc
+    if _gc_cb not in gc.callbacks:
+        gc.callbacks.append(_gc_cb)
+
+
 class watchdog:
-    """SIGALRM-based guard against non-termination in pure-Python code under test."""
+    """SIGALRM-based guard against non-termination in pure-Python code under test.
+
+    The budget is CPU time spent by this process OUTSIDE the cyclic garbage collector: a wall-clock
+    alarm that fires while the process was starved of CPU (other checks and TLC runs share the box)
+    or while a long gen-2 collection ran (harnesses keep millions of recorded events alive) is
+    re-armed instead of being reported - a flaky "hang" would discredit every real one.  An absolute
+    wall-clock cap of 30x the budget still ends a thread that blocks without burning CPU."""
 
     def __init__(self, seconds=2.0):
         self.seconds = seconds
 
     def _fire(self, signum, frame):
-        raise Hang('no return within %.1fs' % self.seconds)
+        import signal
+        import time
+        used = (time.process_time() - self.cpu0) - (_GC['t'] - self.gc0)
+        wall = time.time() - self.wall0
+        if used < self.seconds and wall < 30 * self.seconds:
+            signal.setitimer(signal.ITIMER_REAL, max(0.05, self.seconds - used))
+            return
+        raise Hang('no return within %.1fs of CPU time (%.1fs wall)' % (self.seconds, wall))
 
     def __enter__(self):
         import signal
+        import time
+        _install_gc_clock()
+        self.cpu0 = time.process_time()
+        self.gc0 = _GC['t']
+        self.wall0 = time.time()
         self._old = signal.signal(signal.SIGALRM, self._fire)
         signal.setitimer(signal.ITIMER_REAL, self.seconds)
         return self
